@@ -395,7 +395,7 @@ func vErrClass(err error) string {
 	if strings.HasPrefix(msg, "frame length too big") {
 		return "too-big"
 	}
-	if msg == "verif: injected write error" {
+	if msg == "verif: injected write error" || msg == "verif: injected temporary write error" {
 		return "write-injected"
 	}
 	return "app:" + vPrint(msg)
@@ -649,7 +649,21 @@ func (e *vEngine) ctxFor(spec string) (context.Context, context.CancelFunc) {
 		// the caller marks the context "fire now" (as a Connection user does) after attaching its tags
 		ctx = WithFireNow(ctx)
 	}
-	return context.WithCancel(ctx)
+	// the caller's context is the caller's: reading its tags is a point at which a script can hold the calling goroutine
+	// (hook "CtxTags"), like the log and unwrapper callbacks
+	return context.WithCancel(&vEngSpyCtx{Context: ctx, h: e.hooks})
+}
+
+type vEngSpyCtx struct {
+	context.Context
+	h *vHooks
+}
+
+func (c *vEngSpyCtx) Value(key interface{}) interface{} {
+	if k, ok := key.(CtxRPCKey); ok && k == CtxRPCTagsKey {
+		c.h.hit("CtxTags")
+	}
+	return c.Context.Value(key)
 }
 
 func (e *vEngine) op(f []string) {
